@@ -95,7 +95,20 @@ func (r *Run) Do(op string, nontrivial bool, tags ...string) string {
 	if r.cur != "" {
 		os.WriteFile(r.cur, []byte(op), 0o644)
 	}
-	out := r.P.Exec(op)
+	// Ops with real sockets and timeouts (a 300 ms connect timeout, pauses that let a goroutine reach a channel) assume a
+	// machine that schedules this process.  A ticking goroutine measures the longest gap it saw while the op ran; an op
+	// that ran while the process was not scheduled for more than 100 ms is executed again (at most twice) and only the last
+	// execution counts.  What is repeated is the whole op on a fresh fixture, whatever its outcome was.
+	var out string
+	for try := 0; ; try++ {
+		starveReset()
+		out = r.P.Exec(op)
+		if try >= 2 || starveMax() < 100*time.Millisecond {
+			break
+		}
+		r.hist["rerun-after-starvation"]++
+		time.Sleep(200 * time.Millisecond)
+	}
 	fmt.Fprintf(r.w, "%s => %s\n", op, out)
 	r.evals++
 	if nontrivial {
